@@ -47,6 +47,9 @@ func gen(r *harn.Rng, tier string) interface{} {
 		sc.NoRateOpt = true
 		sc.Rate = 1 * vnet.MBit
 	}
+	if r.Bool(0.06) {
+		sc.Queue = r.Pick(-1, -1, 0, -50000) // zero or negative: no limit
+	}
 	np := 1
 	if r.Bool(0.25) {
 		np = 2
@@ -128,7 +131,10 @@ func gen(r *harn.Rng, tier string) interface{} {
 				sc.Reconf = append(sc.Reconf, reconf{AfterNs: int64(r.Pick(1, 5, 20, 50)) * 1e6, What: "burst", Value: v})
 				continue
 			}
-			if r.Bool(0.25) {
+			if r.Bool(0.2) {
+				// a setting changed and put back with the option Set returned (the documented way to restore it)
+				sc.Reconf = append(sc.Reconf, reconf{AfterNs: int64(r.Intn(400)) * 1e6, What: []string{"roundtrip-queue", "roundtrip-burst", "roundtrip-rate"}[r.Intn(3)], Value: r.Pick(100, 3000, 50000, 1000000)})
+			} else if r.Bool(0.25) {
 				sc.Reconf = append(sc.Reconf, reconf{AfterNs: int64(r.Intn(400)) * 1e6, What: []string{"rate-again", "burst-again"}[r.Intn(2)]})
 			} else if r.Bool(0.5) {
 				sc.Reconf = append(sc.Reconf, reconf{AfterNs: int64(r.Intn(400)) * 1e6, What: "rate", Value: r.Pick(100*vnet.KBit, 1*vnet.MBit, 8*vnet.MBit)})
@@ -240,6 +246,32 @@ func run(env *simrt.Env, sci interface{}) {
 					bursts = append(bursts, st)
 					tbf.Set(optBurst)
 					bursts[len(bursts)-1].ret = env.Stamp()
+				} else if rc.What == "roundtrip-queue" {
+					prev := tbf.Set(vnet.TBFQueueSizeInBytes(rc.Value))
+					tbf.Set(prev) // rate and burst are what they were
+				} else if rc.What == "roundtrip-burst" {
+					before := sc.Burst
+					if len(bursts) > 0 {
+						before = bursts[len(bursts)-1].value
+					}
+					bursts = append(bursts, st)
+					prev := tbf.Set(vnet.TBFMaxBurst(rc.Value))
+					bursts[len(bursts)-1].ret = env.Stamp()
+					bursts = append(bursts, setting{value: before, inv: env.Stamp(), tInv: env.Now()})
+					tbf.Set(prev)
+					bursts[len(bursts)-1].ret = env.Stamp()
+				} else if rc.What == "roundtrip-rate" {
+					before := sc.Rate
+					if len(rates) > 0 {
+						before = rates[len(rates)-1].value
+					}
+					st.value = 1000 * rc.Value // bit/s
+					rates = append(rates, st)
+					prev := tbf.Set(vnet.TBFRate(st.value))
+					rates[len(rates)-1].ret = env.Stamp()
+					rates = append(rates, setting{value: before, inv: env.Stamp(), tInv: env.Now()})
+					tbf.Set(prev)
+					rates[len(rates)-1].ret = env.Stamp()
 				} else if rc.What == "rate" {
 					rates = append(rates, st)
 					tbf.Set(vnet.TBFRate(rc.Value))
@@ -402,10 +434,30 @@ func run(env *simrt.Env, sci interface{}) {
 				}
 			}
 			env.Probe("discarded")
+			if sc.Queue <= 0 {
+				env.Fail("C15/discarded-with-room", "datagram %d (%d bytes) was discarded although the queue size %d means unlimited", s.id, len(s.payload), sc.Queue)
+				return
+			}
 			if occ+len(s.payload) < sc.Queue {
 				env.Fail("C15/discarded-with-room", "datagram %d (%d bytes) was discarded although at most %d of %d queue bytes were occupied when it arrived", s.id, len(s.payload), occ, sc.Queue)
 				return
 			}
+		}
+	}
+	// total silence: with one producer, no reconfiguration and a sink that never blocks, the first
+	// datagram (smaller than the bucket) has left by the time a datagram arrives long enough after
+	// it for the bucket to have filled completely
+	if len(got) == 0 && len(sc.Producers) == 1 && len(sc.Reconf) == 0 && sc.SinkStallEvery == 0 && len(sents) >= 2 && len(sc.Producers[0]) == len(sents) {
+		as := sc.Producers[0]
+		var after int64
+		for _, a := range as[1:] {
+			after += a.GapNs
+		}
+		fill := int64(sc.Burst) * 8 * int64(time.Second) / int64(sc.Rate)
+		fitsQueue := sc.Queue <= 0 || as[0].Len+100 <= sc.Queue
+		if fitsQueue && as[0].Len+100 <= sc.Burst && after >= fill+int64(300*time.Millisecond) {
+			env.Fail("C15/nothing-forwarded", "%d datagrams arrived over %v, the first (%d bytes) fits the queue and the bucket (%d bytes, refilled completely within %v), yet nothing was ever forwarded", len(sents), time.Duration(after), as[0].Len, sc.Burst, time.Duration(fill))
+			return
 		}
 	}
 	if len(got) >= 3 {
